@@ -396,12 +396,11 @@ Section Close.
     unfold x_step_post, y_step_post, j_remaining, j_all_done in *.
     split; [|split; [|split]].
     - intros En. rewrite Y1. rewrite En in P1. unfold x_enabled in En. generalize (j_rank (j_y st)); intros ry.
-      destruct (j_x st); try discriminate; rewrite P1; cbn.
-      all: lia.
+      destruct (j_x st); try discriminate; rewrite P1; cbn [j_rank]; lia.
     - intros En. rewrite X1. rewrite En in P2. unfold y_enabled in En. generalize (j_rank (j_x st)); intros rx.
-      destruct (j_y st); try discriminate; rewrite P2; cbn; lia.
-    - destruct (j_x st), (j_y st); cbn; lia.
-    - destruct (j_x st), (j_y st); cbn; split; intros; try lia; try discriminate; reflexivity.
+      destruct (j_y st); try discriminate; rewrite P2; cbn [j_rank]; lia.
+    - destruct (j_x st), (j_y st); cbn [j_rank]; lia.
+    - destruct (j_x st), (j_y st); cbn [j_rank]; split; intros; try lia; try discriminate; reflexivity.
   Qed.
 
   (* ... and concretely: from ANY reachable state in which a direction has ended, nine goroutine steps
@@ -439,10 +438,10 @@ Section Close.
         assert (Hy_can : j_y s1 <> JCopy \/ y_enabled s1 = true).
         { unfold j_triggered in Ht. rewrite Ex, EpA in Ht. cbn in Ht.
           destruct (j_y st) eqn:Ey.
-          - right. unfold y_enabled. rewrite Y1, Ey, PB1. rewrite orb_false_r in Ht. rewrite Ht. reflexivity.
-          - left. rewrite Y1, Ey. discriminate.
-          - left. rewrite Y1, Ey. discriminate.
-          - left. rewrite Y1, Ey. discriminate. }
+          - right. unfold y_enabled. rewrite Y1, PB1. destruct (j_peerB st); cbn in Ht |- *; [reflexivity|discriminate].
+          - left. rewrite Y1. discriminate.
+          - left. rewrite Y1. discriminate.
+          - left. rewrite Y1. discriminate. }
         specialize (G2 Hy_can). split; [|exact G2].
         apply G3. destruct (j_x s2) eqn:Ex2; [right|left; discriminate|left; discriminate|left; discriminate].
         destruct I2' as (_ & _ & _ & HY2). rewrite G2 in HY2.
